@@ -23,6 +23,32 @@ from .common import Check
 import gen_forms  # noqa
 
 
+def real_reader(path, with_forms=False):
+    """the solution file as the REAL habutax.fill_pdfs reads it: fill_pdfs is run with PDFFiller replaced by a recorder"""
+    import argparse
+    import sys as _sys
+    hb = _sys.modules['habutax']
+    got = {}
+
+    class Recorder(object):
+        def __init__(self, solution, form_classes, output, flatten=False):
+            got['solution'] = solution
+            got['year'] = getattr(form_classes[0], 'tax_year', None) if form_classes else None
+            got['forms'] = form_classes
+
+        def fill(self):
+            pass
+    old = hb.pdf_filler.PDFFiller
+    hb.pdf_filler.PDFFiller = Recorder
+    try:
+        hb.fill_pdfs(argparse.Namespace(solution=path, output=path + '.pdf', flatten=False))
+    finally:
+        hb.pdf_filler.PDFFiller = old
+    if with_forms:
+        return got['solution'], got['year'], got['forms']
+    return got['solution'], got['year']
+
+
 def through_file(H, fields_and_values, path):
     """{name: (field, value)} -> written with the real ValueStore.to_config + ConfigParser.write, read back like fill_pdfs"""
     vs = H['values'].ValueStore()
@@ -34,10 +60,7 @@ def through_file(H, fields_and_values, path):
     cfg['habutax'] = {'tax_year': 2023, 'version': 'x'}
     with open(path, 'w') as out:
         cfg.write(out)
-    back = configparser.ConfigParser(interpolation=None)
-    with open(path) as f:
-        back.read_file(f)
-    year = back.getint('habutax', 'tax_year')
+    back, year = real_reader(path)
     res = {}
     for name, (f, v) in fields_and_values.items():
         sec, key = name.split('.')
@@ -142,12 +165,13 @@ def run(tier, seed):
         sol['habutax'] = {'tax_year': year, 'version': 'x'}
         with open(path, 'w') as f:
             sol.write(f)
-        back = configparser.ConfigParser(interpolation=None)
-        with open(path) as f:
-            back.read_file(f)
-        y2 = back.getint('habutax', 'tax_year')
-        back.remove_section('habutax')
-        p = H['pdf_filler'].PDFFiller(back, H['forms'].available_forms[y2], 'x.pdf')
+        try:
+            back, y2, form_classes = real_reader(path, with_forms=True)
+        except Exception as e:  # noqa
+            ck.violation('C14:%d:reader-raised' % year, 'habutax.fill_pdfs raised %r on the solution that habutax wrote' % (e,),
+                         {'kind': 'failing-input', 'year': year, 'forms': forms, 'seed': sseed, 'profile': prof}, found=True)
+            continue
+        p = H['pdf_filler'].PDFFiller(back, form_classes, 'x.pdf')
         try:
             for form_name in back:
                 if form_name != 'DEFAULT':
